@@ -324,7 +324,9 @@ def module_cfg(accs):
         if acc['kind'] != 'param':
             continue
         entry = {}
-        if acc.get('cls') and acc.get('via', 'cfg') == 'cfg':
+        if acc.get('constvia') == 'cfg':
+            entry['constant'] = internal(acc['dt'], acc['const'])      # <attr> = Param(constant=..)
+        elif acc.get('cls') and acc.get('via', 'cfg') == 'cfg':
             entry.update(_final_props(attr, acc))
         if acc.get('initvia') == 'cfgvalue':
             entry['value'] = internal(acc['dt'], acc['init'])
@@ -411,9 +413,11 @@ def build_class(accs, base='Module', feats=()):
         cl = class_level(acc)
         dt = acc['dt']
         kw = {'readonly': cl['ro'], 'export': _export(attr, acc)}
-        via = acc.get('initvia', 'default')
-        if acc['const'] != NULL:
-            kw['constant'] = internal(dt, acc['const'])
+        via = acc.get('initvia', 'none' if acc['const'] != NULL else 'default')
+        if acc['const'] != NULL and acc.get('constvia', 'class') == 'class':
+            kw['constant'] = internal(dt, acc['const'])      # (else: pinned in the configuration)
+        if via == 'none':
+            pass                                              # a constant without default
         elif via == 'value':
             kw['value'] = internal(dt, acc['init'])           # Parameter(.., value=..)
         elif via == 'default':
@@ -571,7 +575,7 @@ class World:
         for mname, accs in self.shape.items():
             res[mname] = {}
             for a, acc in accs.items():
-                if acc['kind'] == 'param' and acc['const'] == NULL:
+                if acc['kind'] == 'param':        # (the cache of a constant holds the constant)
                     pobj = self.mods[mname].parameters[a]
                     res[mname][a] = abs_value(acc['dt'], pobj.value) if pobj.readerror is None \
                         else odd(pobj.readerror)
@@ -602,7 +606,9 @@ class World:
         else:
             obs['cls'] = 'ok'
             val = rep[2][0] if isinstance(rep[2], list) and rep[2] else rep[2]
-            if acc and acc['kind'] == 'param':
+            if req['act'] == 'activate':
+                obs['value'] = NULL if val is None else odd(val)
+            elif acc and acc['kind'] == 'param':
                 obs['value'] = abs_value(acc['dt'], val, wire=True)
             elif acc:
                 obs['value'] = NULL if val is None else abs_number(val)
@@ -655,7 +661,12 @@ def clauses(exp, obs):
         bad.append('hook.arg')
     if obs['cache'] != exp['cache']:
         bad.append('cache')
-    if exp['upd'] == NULL:
+    def key(u):
+        return json.dumps(u, sort_keys=True)
+    if exp.get('hassnap'):           # activate: exactly the snapshot updates (as a set)
+        if sorted(map(key, obs['upd'])) != sorted(map(key, exp['snap'])):
+            bad.append('snapshot')
+    elif exp['upd'] == NULL:
         if obs['upd']:
             bad.append('updates')
     elif any(u != exp['upd'] for u in obs['upd']):
@@ -825,6 +836,24 @@ WRONG = [num(1), {'k': 'frac', 'n': 2}, sval('ab'), NULL, {'k': 'list', 'xs': [n
          {'k': 'obj', 'kv': [{'key': 'x', 'val': num(7)}]}, sval('toolong!'), sval('nonascii')]
 
 
+def falsy_of(dt):
+    """the falsy member of the value set of dt, if it has one"""
+    t = dt['t']
+    if t in ('int', 'double', 'scaled'):
+        return num(0) if dt['lo'] <= 0 <= dt['hi'] else None
+    if t == 'bool':
+        return {'k': 'bool', 'b': False}
+    if t == 'string':
+        return abs_str('') if dt['minc'] == 0 else None
+    if t == 'blob':
+        return abs_str('') if dt['minb'] == 0 else None
+    if t == 'array':
+        return {'k': 'list', 'xs': []} if dt['minlen'] == 0 else None
+    if t == 'enum':
+        return num(0) if any(m['val'] == 0 for m in dt['mem']) else None
+    return None
+
+
 def has_kind(dt, kinds):
     return dt['t'] in kinds or any(has_kind(x, kinds) for x in
                                    [dt[k] for k in ('el',) if k in dt] + list(dt.get('els', ())) +
@@ -907,10 +936,11 @@ def rand_shape(rnd):
             auto = attr if attr in PREDEFINED_ACCESSIBLES else '_' + attr
             wire = auto if r < 0.7 else ('' if r < 0.85 else 'x_' + attr)
             q = rnd.random()
-            # (constants of scaled / blob parameters: shapes K of the family, a known defect of Parameter.finish)
-            ro, const = q < 0.15, (rand_valid(rnd, dt) if 0.15 <= q < 0.25 and not has_kind(dt, ('scaled', 'blob')) else NULL)
+            ro, const = q < 0.15, (rand_valid(rnd, dt) if 0.15 <= q < 0.3 else NULL)
             if const != NULL:
                 ro = True
+                if rnd.random() < 0.5:        # falsy constants: 0, 0.0, false, '', [], b'', the enum member with code 0
+                    const = falsy_of(dt) or const
             lim = {'kind': 'none'}
             level = rnd.choice(['X', 'M', 'D', 'B'])      # class of the hierarchy that defines the limit parameters
             if numeric and const == NULL and rnd.random() < 0.6:
@@ -949,7 +979,19 @@ def rand_shape(rnd):
             # where the final accessible comes from: the class alone, a re-declaration in a subclass, the configuration
             if const == NULL:
                 acc['initvia'] = rnd.choice(['default', 'default', 'value', 'bare', 'cfgvalue', 'cfgdefault'])
-            if rnd.random() < 0.3:
+            else:
+                # a constant: with or without a (different) default / value, defined by the class or pinned in the
+                # configuration of a parameter that may have read and write functions
+                acc['initvia'] = rnd.choice(['none', 'default', 'value'])
+                acc['constvia'] = rnd.choice(['class', 'cfg'])
+                acc['rd'] = rnd.choice(['absent', 'fixed'])
+                if acc['constvia'] == 'cfg':
+                    acc['cls'] = {'ro': rnd.random() < 0.5}
+                    if acc['initvia'] == 'none':
+                        acc['initvia'] = 'default'
+                else:
+                    acc['drv'] = rnd.choice(['absent', 'none'])
+            if const == NULL and rnd.random() < 0.3:
                 what = rnd.choice(['ro', 'wire'] + (['hi'] if numeric else []))
                 acc['via'] = rnd.choice(['cfg', 'subclass'])
                 if what == 'ro' and const == NULL:
@@ -993,9 +1035,9 @@ def rand_request(rnd, shape, cache):
     r = rnd.random()
     mods = list(shape)
     if r < 0.06:
-        act = rnd.choice(['change', 'read', 'do'])
+        act = rnd.choice(['change', 'read', 'do', 'activate'])
         return {'act': act, 'mod': rnd.choice(['zz', 'h']), 'name': rnd.choice(['target', '_pa', 'go']),
-                'payload': NULL if act == 'read' else rnd.choice([NULL, num(1)])}
+                'payload': NULL if act in ('read', 'activate') else rnd.choice([NULL, num(1)])}
     m = rnd.choice(mods)
     if r < 0.12:       # the bare module specifier, and accessibles that must not exist
         act = rnd.choice(['change', 'read'])
@@ -1003,7 +1045,9 @@ def rand_request(rnd, shape, cache):
             tg = next((x for x in shape[m].values() if x['wire'] == ('target' if act == 'change' else 'value')), None)
             return {'act': act, 'mod': m, 'name': '', 'payload': NULL if act == 'read' else
                     rand_payload(rnd, tg['dt']) if tg and tg['kind'] == 'param' else num(1)}
-        act = rnd.choice(['change', 'read', 'do'])
+        act = rnd.choice(['change', 'read', 'do', 'activate'])
+        if act == 'activate' and rnd.random() < 0.5:
+            return {'act': act, 'mod': m, 'name': '', 'payload': NULL}        # the whole module
         return {'act': act, 'mod': m, 'name': rnd.choice(['_popt', 'popt', '_copt', '_prem', 'prem']),
                 'payload': num(1) if act == 'change' else NULL}
     a = rnd.choice(list(shape[m]))
@@ -1011,7 +1055,9 @@ def rand_request(rnd, shape, cache):
     name = acc['wire'] if acc['wire'] and rnd.random() < 0.93 else rnd.choice([a, 'nope', (acc.get('cls') or {}).get('wire') or a])
     q = rnd.random()
     if acc['kind'] == 'param':
-        act = 'read' if q < 0.12 else 'do' if q < 0.16 else 'change'
+        act = 'read' if q < 0.12 else 'do' if q < 0.16 else 'activate' if q < 0.22 else 'change'
+        if acc['const'] != NULL and q >= 0.5:
+            act = rnd.choice(['read', 'activate', 'change'])
         payload = NULL if act != 'change' else rand_payload(rnd, acc['dt'])
     else:
         act = 'change' if q < 0.05 else 'read' if q < 0.1 else 'do'
